@@ -15,6 +15,21 @@ def ident(n):
     return (n['name'], n['id'])
 
 
+# Core keeps variables and covariables apart (an occurrence says by its chirality which one it is), so a variable and a
+# covariable may carry the same name (`label k { let k: i64 = ..; .. }` compiles to `mu k. <.. | mutilde k. <.. | k>>`):
+# the environment has two name spaces
+def kp(n):
+    return ('p', n['name'], n['id'])
+
+
+def kc(n):
+    return ('c', n['name'], n['id'])
+
+
+def kb(b):
+    return kp(b['var']) if b['chi'].tag == 'Prd' else kc(b['var'])
+
+
 class Prog:
     def __init__(self, node):
         self.defs = {}
@@ -45,7 +60,7 @@ def run_main(prog, args, ctx):
     if len(bs) != len(args):
         raise Stuck(f"main takes {len(bs)} parameters")
     for b, a in zip(bs, args):
-        env[ident(b['var'])] = ('int', a)
+        env[kb(b)] = ('int', a)
     r = trampoline(stmt(prog, ctx, d['body'], env), ctx)
     if not isinstance(r, Halt):
         raise Stuck(f"machine ended with {r}")
@@ -84,7 +99,7 @@ def value_fits(prog, b, v):
 def lookup(env, k):
     v = env.get(k)
     if v is None:
-        raise Stuck(f"unbound variable {k[0]}_{k[1]}")
+        raise Stuck(f"unbound {'variable' if k[0] == 'p' else 'covariable'} {k[1]}_{k[2]}")
     return v
 
 
@@ -102,13 +117,13 @@ def is_ident(x):
 def prd_value(prog, ctx, t, env, k):
     """evaluate a producer of i64 / data type to a value (dynamic focusing); codata producers are passed by name"""
     if is_ident(t):                         # focused form: operands are identifiers
-        return Bounce(lambda: k(lookup(env, ident(t))))
+        return Bounce(lambda: k(lookup(env, kp(t))))
     t = unwrap(t)
     tag = t.tag
     if tag == 'Literal':
         return Bounce(lambda: k(('int', t['lit'] & M64)))
     if tag == 'XVar':
-        return Bounce(lambda: k(lookup(env, ident(t['var']))))
+        return Bounce(lambda: k(lookup(env, kp(t['var']))))
     if tag == 'Op':
         op = t['op'].tag
         return Bounce(lambda: prd_value(prog, ctx, t['fst'], env, lambda a: prd_value(prog, ctx, t['snd'], env,
@@ -121,7 +136,7 @@ def prd_value(prog, ctx, t, env, k):
         return Bounce(lambda: args_values(prog, ctx, t['args'], env, lambda vs: k(('con', ident(t['name']), vs))))
     if tag == 'Mu':
         env2 = dict(env)
-        env2[ident(t['variable'])] = ('meta', k)
+        env2[kc(t['variable'])] = ('meta', k)
         return Bounce(lambda: stmt(prog, ctx, t['statement'], env2))
     raise Stuck(f"CoreM: cannot evaluate producer {tag}")
 
@@ -137,9 +152,9 @@ def cns_value(prog, ctx, t, env, k):
     t = unwrap(t)
     tag = t.tag
     if tag == 'XVar':
-        return Bounce(lambda: k(lookup(env, ident(t['var']))))
+        return Bounce(lambda: k(lookup(env, kc(t['var']))))
     if tag == 'Mu':
-        return Bounce(lambda: k(('mutilde', ident(t['variable']), t['statement'], env)))
+        return Bounce(lambda: k(('mutilde', kp(t['variable']), t['statement'], env)))
     if tag == 'XCase':
         return Bounce(lambda: k(('case', t['clauses'], env)))
     if tag == 'Xtor':
@@ -149,7 +164,7 @@ def cns_value(prog, ctx, t, env, k):
 
 def args_values(prog, ctx, args, env, k, acc=None, i=0):
     if args.tag == 'TypingContext':         # focused form: a list of variable bindings
-        vals = [lookup(env, ident(b['var'])) for b in args['bindings']]
+        vals = [lookup(env, kb(b)) for b in args['bindings']]
         return Bounce(lambda: k(vals))
     entries = args['entries']
     acc = acc or []
@@ -170,7 +185,7 @@ def bind_clause(clauses, name, vals, env):
                 raise Stuck(f"clause {name[0]} binds {len(bs)} variables, got {len(vals)} arguments")
             env2 = dict(env)
             for b, v in zip(bs, vals):
-                env2[ident(b['var'])] = v
+                env2[kb(b)] = v
             return c['body'], env2
     raise Stuck(f"no clause for {name[0]}")
 
@@ -198,12 +213,12 @@ def force_codata(prog, ctx, p, env, cv):
     else:
         t = unwrap(p)
         if t.tag == 'XVar':
-            pv = lookup(env, ident(t['var']))
+            pv = lookup(env, kp(t['var']))
         elif t.tag == 'XCase':
             pv = ('cocase', t['clauses'], env)
         elif t.tag == 'Mu':
             env2 = dict(env)
-            env2[ident(t['variable'])] = cv
+            env2[kc(t['variable'])] = cv
             return Bounce(lambda: stmt(prog, ctx, t['statement'], env2))
         else:
             raise Stuck(f"producer {t.tag} at codata type")
@@ -226,7 +241,7 @@ def cut(prog, ctx, c, env):
                 # consumer first: bind the producer by name (values and variables directly)
                 t = unwrap(p)
                 if t.tag == 'XVar':
-                    pv = lookup(env, ident(t['var']))
+                    pv = lookup(env, kp(t['var']))
                 elif t.tag == 'XCase':
                     pv = ('cocase', t['clauses'], env)
                 else:
@@ -278,7 +293,7 @@ def stmt(prog, ctx, s, env):
             for b, v in zip(bs, vals):
                 if not value_fits(prog, b, v):
                     raise Stuck(f"ill-typed call of {s['name']['name']}: the value passed for {b['var']['name']} is not of its declared type")
-            env2 = {ident(b['var']): v for b, v in zip(bs, vals)}
+            env2 = {kb(b): v for b, v in zip(bs, vals)}
             return stmt(prog, ctx, d['body'], env2)
         return Bounce(lambda: args_values(prog, ctx, s['args'], env, go))
     raise Stuck(f"CoreM: no rule for statement {tag}")
